@@ -2,6 +2,7 @@
 F = "kappadata/samplers/interleaved_sampler.py"
 
 MUTANTS = [
+    ("a trigger table computed from start_sample before the checkpoint is completed", [(F, "        # infer full start checkpoint from one of epoch/update/sample\n", "        self.first_triggers = [None if c.every_n_samples is None else ((start_sample or 0) // c.every_n_samples + 1) * c.every_n_samples for c in configs]\n        # infer full start checkpoint from one of epoch/update/sample\n")], "G9.checkpoint-complete-at-use"),
     ("bookkeeping starts at 0 (the original defect)", [(F, "        sample_at_last_update = self.start_sample\n", "        sample_at_last_update = 0\n")], "G8.init-units"),
     ("bookkeeping starts at the update checkpoint", [(F, "        sample_at_last_update = self.start_sample\n", "        sample_at_last_update = self.start_update\n")], "G8.init-units"),
     ("update counter starts at 0", [(F, "        update = self.start_update\n", "        update = 0\n")], "G8.init-units"),
@@ -27,6 +28,7 @@ MUTANTS = [
 ]
 
 BENIGN = [
+    ("a trigger table computed from the completed start_sample", [(F, "        self.main_sampler = main_sampler\n        self.drop_last = drop_last\n", "        self.first_triggers = [None if c.every_n_samples is None else (start_sample // c.every_n_samples + 1) * c.every_n_samples for c in configs]\n        self.main_sampler = main_sampler\n        self.drop_last = drop_last\n")]),
     ("bookkeeping initialised from the counter", [(F, "        sample_at_last_update = self.start_sample\n", "        sample_at_last_update = sample\n")]),
     ("updates per epoch hoisted differently", [(F, "        updates_per_epoch = (samples_per_epoch + batch_size - 1) // batch_size\n", "        updates_per_epoch = (batch_size + samples_per_epoch - 1) // batch_size\n")]),
     ("start_sample factor order", [(F, "            start_sample = samples_per_epoch * start_epoch\n", "            start_sample = start_epoch * samples_per_epoch\n")]),
